@@ -565,7 +565,8 @@ package jmespath
 //@   ensures {C16} [json-result] err == nil ==> specResultOK(node, result)
 //@   ensures {C01,C02,C07,C08,C11,C15} [fails-exactly-when-the-specification-fails] pureTree(node) ==> ((err == nil) <==> snd(specEval(node, value)))
 //@   ensures {C01,C02,C07,C08,C15} [value-the-specification-assigns] pureTree(node) && err == nil ==> same(result, fst(specEval(node, value)))
-//@   ensures {C01,C09} @internal [a-function-is-applied-to-its-arguments-evaluated-on-the-current-node] node.nodeType == ASTFunctionExpression && err == nil ==> isStr(node.value) && \arg(CallFunction, 1) == strOf(node.value) && len(\arg(CallFunction, 2)) == nkids(node) && same(result, \ret(CallFunction, 0)) && (forall j int :: 0 <= j && j < nkids(node) ==> (pureTree(kid(node, j)) ==> same(\arg(CallFunction, 2)[j], fst(specEval(kid(node, j), value)))))
+//@   ensures {C01,C09} @internal [a-function-is-called-by-its-name-with-one-argument-per-child] node.nodeType == ASTFunctionExpression && err == nil ==> isStr(node.value) && \arg(CallFunction, 1) == strOf(node.value) && len(\arg(CallFunction, 2)) == nkids(node) && same(result, \ret(CallFunction, 0))
+//@   ensures {C01,C09} @internal [a-function-is-applied-to-its-arguments-evaluated-on-the-current-node] node.nodeType == ASTFunctionExpression && err == nil ==> (forall j int :: 0 <= j && j < nkids(node) ==> (pureTree(kid(node, j)) ==> same(\arg(CallFunction, 2)[j], fst(specEval(kid(node, j), value)))))
 //@   loop 1 invariant [args] !isNil(resolvedArgs) && len(resolvedArgs) == \k && (forall j int :: 0 <= j && j < len(resolvedArgs) ==> specArgOK(resolvedArgs[j]) && (isExpRef(resolvedArgs[j]) ==> nodeRank(refOf(resolvedArgs[j])) < nodeRank(node)))
 //@   loop 1 invariant {C01,C09} [arguments-so-far-are-the-children-evaluated-on-the-current-node] (forall j int :: 0 <= j && j < len(resolvedArgs) ==> (pureTree(node.children[j]) ==> same(resolvedArgs[j], fst(specEval(node.children[j], value)))))
 //@   loop 1 decreases len(node.children) - \k
